@@ -5,6 +5,7 @@ import (
 	"errors"
 	"fmt"
 	"io"
+	"strconv"
 
 	"github.com/goccy/go-json"
 )
@@ -24,6 +25,19 @@ func (o *CandidateNode) setScalarFromJson(value interface{}) error {
 			o.Tag = "!!int"
 			o.Value = fmt.Sprintf("%v", int64(value.(float64)))
 		}
+	case json.Number:
+		// an integer literal that fits 64 bits is kept exactly; anything else
+		// goes through float64 as before
+		if intValue, err := strconv.ParseInt(rawData.String(), 10, 64); err == nil {
+			o.Value = fmt.Sprintf("%v", intValue)
+			o.Tag = "!!int"
+			return nil
+		}
+		floatValue, err := rawData.Float64()
+		if err != nil {
+			return err
+		}
+		return o.setScalarFromJson(floatValue)
 	case int, int64, int32:
 		o.Value = fmt.Sprintf("%v", value)
 		o.Tag = "!!int"
@@ -113,7 +127,9 @@ func (o *CandidateNode) UnmarshalJSON(data []byte) error {
 	log.Debug("UnmarshalJSON -  its a scalar!")
 	// otherwise, must be a scalar
 	var scalar interface{}
-	err := json.Unmarshal(data, &scalar)
+	scalarDecoder := json.NewDecoder(bytes.NewReader(data))
+	scalarDecoder.UseNumber()
+	err := scalarDecoder.Decode(&scalar)
 
 	if err != nil {
 		return err
